@@ -227,9 +227,9 @@ def order_oracle(ctx, o, first_only=False):
         want = [f"ok {b1} {singles[(b1, i)]}", f"ok {b2} {singles[(b2, i)]}"]
         got = [r[1], r[3]]
         inp = {"op": "backend-order", "hasher": "bcrypt", "first": b1, "then": b2, "ident": i, "pwd": pw}
-        o.check("bcrypt:" + i, got == want, inp, got, want)
+        o.check("bcrypt:" + i, got == want, inp, got if got == want else {"answers": got, "set_backend": [r[0], r[2]]}, want)
         if got != want:
-            fails.append({"input": inp, "observed": got, "expected": want})
+            fails.append({"input": inp, "observed": {"answers": got, "set_backend": [r[0], r[2]]}, "expected": want})
             if first_only:
                 return fails
     return fails
